@@ -36,6 +36,10 @@ func loadURL(listURL string) (pemBlocks map[string][]byte, err error) {
 			return nil, err
 		}
 		defer resp.Body.Close()
+		if resp.StatusCode < 200 || resp.StatusCode > 299 {
+			io.Copy(io.Discard, resp.Body)
+			return nil, fmt.Errorf("GET %s: unexpected status %s", url, resp.Status)
+		}
 		return io.ReadAll(resp.Body)
 	}
 
